@@ -81,7 +81,7 @@ def runStep : Step → P
   | .int n => lift (readInt n) (fun c v => { c with evs := .int v :: c.evs })
   | .err => lift (readInt 2) (fun c v => { c with evs := .err v :: c.evs, lastErr := v })
   | .str => lift readString (fun c b => { c with evs := .str b :: c.evs })
-  | .bytes => lift readBytes (fun c _ => c)
+  | .bytes => lift readBytes (fun c b => { c with evs := .int b.length :: c.evs })   -- remembers only the length
   | .discStr => lift (discardLen 2) (fun c _ => c)
   | .discBytes => lift (discardLen 4) (fun c _ => c)
   | .disc n => lift (discardN n) (fun c _ => c)
